@@ -320,13 +320,15 @@ func (w *AofRotater) closeAof() error { // ensure close() and write() are in sam
 		verifhook.Point("store.fs", "aof.close", w.filepath)
 		if w.filesize == headerSize {
 			err := ret(nil)
-			w.getObserver().Close(w.left, int64(0))
+			// remove the file before the segment leaves the index : once it has left, a new writer
+			// may create a file of the same name, which a later Remove would delete
 			err = errors.Join(err, os.Remove(w.filepath))
 			if err != nil {
 				w.logger.Errorf("remove empty file : file(%s), error(%v)", w.filepath, err)
 			} else {
 				w.logger.Infof("remove empty file : file(%s)", w.filepath)
 			}
+			w.getObserver().Close(w.left, int64(0))
 			return nil
 		}
 
